@@ -54,7 +54,7 @@ class IntegerNode(BaseNode, SelectNode):
         if self.value_expr: # Process expression
             with NumericalSolver(env) as s:
                 # the result is stored like a written literal (a number 0 must not read as 'no value')
-                self.value_raw = repr(int(np.round(s.solve(self.value_expr, self.units_raw))))
+                self.value_raw = repr(int(np.round(s.number(self.value_expr, self.units_raw))))
         # Testing validity of units
         if self.units_raw:
             with UnitEnvironment(env.units):
